@@ -2,6 +2,7 @@
 #pragma once
 
 #include <verif.hpp>
+#include <tracked.hpp>
 
 #include <string>
 #include <vector>
@@ -46,6 +47,32 @@ VERIF_MISLEADING_ORDER(Elem32, key)
 VERIF_MISLEADING_EQUALITY(Elem32, key)
 VERIF_MISLEADING_ORDER(ElemStr, key)
 VERIF_MISLEADING_EQUALITY(ElemStr, key)
+
+struct ElemT16 {  // 16 bytes and non-trivial -> copy loser trees holding ledger-registered, heap-owning elements
+    int key;
+    uint16_t seq, pos;
+    int* heap;
+    ElemT16() : key(0), seq(0), pos(0), heap(new int(0)) { verif::Ledger::get().ctor(this); }
+    ElemT16(const ElemT16& o) : key(o.key), seq(o.seq), pos(o.pos), heap(nullptr) {
+        verif::Ledger::get().use(&o, "copy-from-non-live-object");
+        heap = new int(*o.heap);
+        verif::Ledger::get().ctor(this);
+    }
+    ElemT16& operator=(const ElemT16& o) {
+        verif::Ledger::get().use(this, "assign-to-non-live-object");
+        verif::Ledger::get().use(&o, "assign-from-non-live-object");
+        if (this != &o) { key = o.key; seq = o.seq; pos = o.pos; *heap = *o.heap; }
+        return *this;
+    }
+    ~ElemT16() { verif::Ledger::get().dtor(this); delete heap; heap = nullptr; }
+    void set(int k, unsigned s, unsigned p) { key = k; seq = (uint16_t)s; pos = (uint16_t)p; *heap = k; }
+    unsigned get_seq() const { return seq; }
+    unsigned get_pos() const { return pos; }
+    static const char* name() { return "ElemT16"; }
+};
+static_assert(sizeof(ElemT16) == 16, "ElemT16 is meant to select the copy-based loser trees");
+VERIF_MISLEADING_ORDER(ElemT16, key)
+VERIF_MISLEADING_EQUALITY(ElemT16, key)
 
 template <typename E> struct KeyLess { bool operator()(const E& a, const E& b) const { return a.key < b.key; } };
 template <typename E> struct KeyGreater { bool operator()(const E& a, const E& b) const { return a.key > b.key; } };
